@@ -71,11 +71,13 @@ inductive Op
   | execClif
 deriving DecidableEq, Repr
 
-/-- what a call returns: `err`, unit `ok`, or "the result of running program `p` with helper table `h`" -/
+/-- what a call returns: `err`, unit `ok`, or "the result of running program `p` on engine `eng` with helper table `h`" -/
 inductive Out
   | ok
   | err
-  | ran (p : Bytes) (h : List (Nat × Nat)) (fixed : Option (Nat × Nat))   -- fixed-metadata VM: the offsets in force
+  | ran (eng : Nat) (p : Bytes) (h : List (Nat × Nat)) (fixed : Option (Nat × Nat)) (cal : Option Nat)
+      -- engine (0 interpreter, 1 x86-64 JIT, 2 Cranelift); fixed-metadata VM: the offsets in force; the stack-usage calculator in
+      -- force (the interpreter's frame-size table is a function of it and of the program; compiled code has none)
 deriving DecidableEq, Repr
 
 structure World where
@@ -113,9 +115,9 @@ def step (w : World) (s : VmState) (o : Op) : VmState × Out :=
     match s.prog with
     | some p => if w.clifCompiles p s.helpers then ({ s with clif := some ⟨p, s.helpers⟩ }, .ok) else (s, .err)
     | none => (s, .err)
-  | .exec => match s.prog with | some p => (s, .ran p s.helpers s.fixed) | none => (s, .err)
-  | .execJit => match s.jit with | some a => (s, .ran a.prog a.helpers s.fixed) | none => (s, .err)
-  | .execClif => match s.clif with | some a => (s, .ran a.prog a.helpers s.fixed) | none => (s, .err)
+  | .exec => match s.prog with | some p => (s, .ran 0 p s.helpers s.fixed s.calcId) | none => (s, .err)
+  | .execJit => match s.jit with | some a => (s, .ran 1 a.prog a.helpers s.fixed none) | none => (s, .err)
+  | .execClif => match s.clif with | some a => (s, .ran 2 a.prog a.helpers s.fixed none) | none => (s, .err)
 
 def runOps (w : World) (s : VmState) : List Op → VmState × List Out
   | [] => (s, [])
